@@ -699,39 +699,26 @@ class PathCond:
                         a = None
                     if a is None:
                         acc.add(cs)
-                    else:
-                        # contradictory with an existing atom on the same expr => infeasible path
-                        bad = False
-                        implied = False
-                        weaker = []
-                        for (e2, v2) in cs:
-                            if e2 == a[0]:
-                                if _contradict(v2, a[1]):
-                                    bad = True
-                                    break
-                                if _implies(v2, a[1]):
-                                    implied = True
-                                elif _implies(a[1], v2):
-                                    weaker.append((e2, v2))
-                        if bad:
-                            continue
-                        if implied:
-                            acc.add(cs)
-                        else:
-                            # several exclusions on one expression are one exclusion of the union
-                            if isinstance(a[1], tuple) and a[1] and a[1][0] == "not-in":
-                                others = [(e2, v2) for (e2, v2) in cs if e2 == a[0] and isinstance(v2, tuple) and v2 and v2[0] == "not-in"]
-                                if others:
-                                    vals = set(a[1][1])
-                                    for _, v2 in others:
-                                        vals |= set(v2[1])
-                                    try:
-                                        merged = tuple(sorted(vals))
-                                    except TypeError:
-                                        merged = tuple(sorted(vals, key=str))
-                                    a = (a[0], ("not-in", merged))
-                                    weaker = weaker + others
-                            acc.add((cs - frozenset(weaker)) | {a})
+                        continue
+                    # a private predicate of the crate (`fn peek_lit(input) -> bool { a && !(b && c) }`)
+                    # reads as the condition it computes: one alternative per disjunct
+                    alts = predicate_alternatives(self.b.crate, a) or [(a,)]
+                    for alt in alts:
+                        cur = cs
+                        for a1 in alt:
+                            if relevant is not None and not relevant(a1[0], a1[1]):
+                                continue
+                            f1 = fold_atom(a1[0], a1[1])
+                            if f1 is True:
+                                continue
+                            if f1 is False:
+                                cur = None
+                                break
+                            cur = _add_atom(cur, a1)
+                            if cur is None:
+                                break
+                        if cur is not None:
+                            acc.add(cur)
             # forget phi values that no later switch reads
             if phi["locals"] and not keep_phi:
                 acc = {frozenset(at for at in cs if at[0][0] != "phi" or x in phi["live"].get(at[0][1], ())) for cs in acc}
@@ -856,6 +843,141 @@ class PathCond:
             if a is not None:
                 out.append(a)
         return out
+
+
+def _add_atom(cs, a):
+    """cs ∧ a, or None when contradictory; implied atoms are not repeated, exclusions are merged"""
+    implied = False
+    weaker = []
+    for (e2, v2) in cs:
+        if e2 == a[0]:
+            if _contradict(v2, a[1]):
+                return None
+            if _implies(v2, a[1]):
+                implied = True
+            elif _implies(a[1], v2):
+                weaker.append((e2, v2))
+    if implied:
+        return cs
+    if isinstance(a[1], tuple) and a[1] and a[1][0] == "not-in":
+        others = [(e2, v2) for (e2, v2) in cs if e2 == a[0] and isinstance(v2, tuple) and v2 and v2[0] == "not-in"]
+        if others:
+            vals = set(a[1][1])
+            for _, v2 in others:
+                vals |= set(v2[1])
+            try:
+                merged = tuple(sorted(vals))
+            except TypeError:
+                merged = tuple(sorted(vals, key=str))
+            a = (a[0], ("not-in", merged))
+            weaker = weaker + others
+    return (cs - frozenset(weaker)) | {a}
+
+
+def _negate_atom(a):
+    """alternatives (list of atoms) whose disjunction is the negation of atom a"""
+    e, v = a
+    if isinstance(v, bool):
+        return [(e, not v)]
+    if isinstance(v, tuple) and v and v[0] == "not-in":
+        return [(e, x) for x in v[1]]
+    return [(e, ("not-in", (v,)))]
+
+
+_PRED = {}
+
+
+def predicate_dnf(crate, name):
+    """(arg_count, DNF) for a private, loop-free bool fn of the crate: the conditions over its
+    parameters under which it returns true (at most 4 disjuncts of at most 4 atoms), else None"""
+    key = (id(crate), name)
+    if key in _PRED:
+        return _PRED[key]
+    _PRED[key] = None
+    accessor_summary(crate, name)
+    raws = crate["_raw_by_key"].get(name)
+    if not raws or len(raws) != 1:
+        return None
+    raw = raws[0]
+    if raw["kind"] not in ("Fn", "AssocFn") or not str(raw.get("vis", "")).startswith("Restricted") or len(raw["blocks"]) > 30:
+        return None
+    from .mir import Body
+    cb = Body(raw, crate)
+    if cb.derived or cb.local_ty(0) != "bool" or cb.arg_count == 0:
+        return None
+    for l in range(1, cb.arg_count + 1):
+        if cb.local_ty(l).startswith("&mut "):
+            return None
+    s = Sym(cb)
+    pc = PathCond(cb, s)
+    if pc.back_edges():
+        return None
+    true = set()
+
+    def values(l, want, depth=0):
+        for d in cb.defs().get(l, []):
+            blk, i, kind, node = d
+            if cb.is_cleanup(blk) or kind not in ("assign", "call"):
+                continue
+            e = strip_transparent(s._def_expr(d, 0))
+            w = want
+            while e[0] == "not":
+                e, w = e[1], not w
+            if e[0] == "local" and len(e) == 2 and e[1] != l and depth < 5:
+                for x in values(e[1], w, depth + 1):
+                    yield x
+            else:
+                yield blk, e, w
+
+    try:
+        for blk, e, want in values(0, True):
+            cbool = _const_bool(e[1]) if e[0] == "const" else None
+            if cbool is not None and cbool != want:
+                continue
+            for cs in pc.conditions(blk):
+                if cbool is not None:
+                    true.add(cs)
+                else:
+                    a = normalise_atom(e, want)
+                    c2 = _add_atom(cs, a)
+                    if c2 is not None:
+                        true.add(c2)
+    except RuntimeError:
+        return None
+    true = _absorb(true)
+    if not true or len(true) > 4 or any(len(d) > 4 or len(d) == 0 for d in true):
+        return None
+    if not all(_closed(e) for d in true for (e, v) in d):
+        return None
+    res = (cb.arg_count, [tuple(sorted(d, key=repr)) for d in sorted(true, key=repr)])
+    _PRED[key] = res
+    INLINED[name] = " | ".join(" & ".join(atom_str(e, v) for e, v in d) for d in res[1])
+    return res
+
+
+def predicate_alternatives(crate, a):
+    """alternatives (tuples of atoms) for atom `pred(args)=bool` when pred has a DNF summary"""
+    e, v = a
+    if e[0] != "call" or isinstance(e[1], tuple) or not isinstance(v, bool):
+        return None
+    summ = predicate_dnf(crate, e[1])
+    if summ is None or summ[0] != len(e[2]):
+        return None
+    dnf = [tuple(normalise_atom(subst_params(x, e[2]), val) for (x, val) in d) for d in summ[1]]
+    if v:
+        return dnf
+    # ¬(D1 ∨ D2 ∨ ..) = ∧ ¬Di ; ¬Di = ∨ of the negated atoms
+    alts = [()]
+    for d in dnf:
+        nxt = []
+        for partial in alts:
+            for atom in d:
+                for neg in _negate_atom(atom):
+                    nxt.append(partial + (neg,))
+        alts = nxt
+        if len(alts) > 64:
+            return None
+    return alts
 
 
 def _mentions_local(e, locs):
